@@ -1,17 +1,21 @@
 /-
   C01 — Every call gets exactly one answer, and it is its own.
 
-  Full statement wanted (per transport): for every integer id 1 ≤ n ≤ 2^53 and every string id
-      keyOfWire (decode (encode id)) = keyOfReq id                                    (`C01_key_roundtrip`)
+  Full statement (per transport): for every integer id 1 ≤ n ≤ 2^53 and every string id
+      keyOfWire (decode (encode id)) = keyOfReq id                                    (`C01_key_roundtrip`, `_string`)
   and, for every schedule, every completed call got the frame whose id is its own, or an error; at most once; and
   a frame delivered while the call is pending and the connection is up completes the call.
 
-  On the current tree the round trip holds for the stdio table (`int64` keys) but NOT for the two `%v`-keyed matchers
-  (legacy SSE client table, Streamable client's POST-SSE matcher): a decoded JSON number is a float64 and
-  `fmt.Sprintf("%v", float64(1000000)) = "1e+06"`, while the request side renders `int64(1000000)` as `"1000000"`.
-  So those get `C01_key_roundtrip_partial` (n < 10^6), `C01_key_counterexample`, `C01_key_mismatch_from_1e6` and the
-  schedule-level witnesses `C01_lost_answer_witness` / `C01_post_sse_lost_witness` (defect D01).
-  Safety (own answer, at most once) holds for every schedule on all transports, whatever the counter.
+  Since the D01 repair the legacy SSE client table and the Streamable client's POST-SSE matcher render ids with the one
+  helper `requestIDKey` (key kind `idKey`: "n:<digits>" / "s:<string>"), the stdio table keeps its `int64` keys: the round
+  trip holds on all three transports up to 2^53 (`C01_key_roundtrip`), a string id never collides with a number
+  (`C01_key_no_collision`). Which kind a table uses is a regenerated, decided fact (`C01_fact_tables`,
+  `C01_fact_post_sse_matcher`).
+  The `%v` kind of the tree before the repair is kept as an explicit bad region of the family: a decoded JSON number is a
+  float64 and `fmt.Sprintf("%v", float64(1000000)) = "1e+06"` while the request side renders `"1000000"` —
+  `C01_key_roundtrip_partial` (n < 10^6), `C01_key_counterexample`, `C01_key_mismatch_from_1e6`, the schedule-level
+  witnesses `C01_lost_answer_witness` / `C01_post_sse_lost_witness`, and `C01_sprintfV_collision_witness`.
+  Safety (own answer, at most once) holds for every schedule on every kind, whatever the counter.
 
   Server-side id echo: `C01_echo` in `Mcp.Props.C01Echo` (over the `Rpc` model of the three servers' request paths), plus the
   differential run of component `pending`, part iii (raw peers, six server modes, every id class).
@@ -66,6 +70,42 @@ theorem C01_key_roundtrip_stdio (n : Nat) (_h1 : 1 ≤ n) (h : n ≤ 2 ^ 53) :
     keyOfWire .int64 (wireOf n) = keyOfReq .int64 (.int (Int.ofNat n)) := by
   rw [keyOfWire_int64 h]; rfl
 
+private theorem keyOfWire_idKey {n : Nat} (h : n ≤ 2 ^ 53) :
+    keyOfWire .idKey (wireOf n) = some (.txt (t!"n:" ++ natDigits n)) := by
+  rw [wireOf_le h]
+  simp [keyOfWire, decodeId, keyOfDec, f64OfInt, f64_le h, intText]
+
+private theorem keyOfReq_idKey (n : Nat) : keyOfReq .idKey (.int (Int.ofNat n)) = some (.txt (t!"n:" ++ natDigits n)) := by
+  simp [keyOfReq, intText]
+
+/-- the kinds the three client transports use today: `requestIDKey` on both sides (legacy SSE table, Streamable POST-SSE
+    matcher), `int64` (stdio table). -/
+def kindToday (k : KeyKind) : Prop := k = .idKey ∨ k = .int64
+
+/-- **Key round trip — all three transports**: for every id the counter can issue, 1 ≤ n ≤ 2^53, the key computed from the
+    id of the answer (encoded by the client, decoded and re-encoded by the server, decoded by the client into a float64)
+    is the key the request was registered under. -/
+theorem C01_key_roundtrip (k : KeyKind) (hk : kindToday k) (n : Nat) (h1 : 1 ≤ n) (h : n ≤ 2 ^ 53) :
+    keyOfWire k (wireOf n) = keyOfReq k (.int (Int.ofNat n)) := by
+  rcases hk with hk | hk <;> subst hk
+  · rw [keyOfWire_idKey h, keyOfReq_idKey]
+  · exact C01_key_roundtrip_stdio n h1 h
+
+/-- **No collision between a string id and a number** under `requestIDKey`: the string "7" and the integer 7 are different
+    keys, on the request side and on the answer side. -/
+theorem C01_key_no_collision (s : Text) (i : Int) (w : WireId) :
+    keyOfReq .idKey (.str s) ≠ keyOfReq .idKey (.int i) ∧
+    keyOfWire .idKey (.str s) ≠ keyOfReq .idKey (.int i) ∧
+    (∀ v, decodeId w = .f64 v → keyOfWire .idKey w ≠ keyOfReq .idKey (.str s)) := by
+  refine ⟨by simp [keyOfReq], by simp [keyOfWire, decodeId, keyOfDec, keyOfReq], ?_⟩
+  intro v hv
+  simp [keyOfWire, hv, keyOfDec, keyOfReq]
+
+/-- … whereas the `%v` rendering of the tree before the repair confuses them: an answer bearing the string "5" is keyed like
+    request 5. -/
+theorem C01_sprintfV_collision_witness :
+    keyOfWire .sprintfV (.str t!"5") = keyOfReq .sprintfV (.int 5) := by decide
+
 private theorem keyOfWire_sprintf {n : Nat} (h : n ≤ 2 ^ 53) :
     keyOfWire .sprintfV (wireOf n) = some (.txt (fmtVFloatNat n)) := by
   rw [wireOf_le h]
@@ -74,13 +114,13 @@ private theorem keyOfWire_sprintf {n : Nat} (h : n ≤ 2 ^ 53) :
 private theorem keyOfReq_sprintf (n : Nat) : keyOfReq .sprintfV (.int (Int.ofNat n)) = some (.txt (natDigits n)) := by
   simp [keyOfReq, fmtVInt, intText]
 
-/-- **Key round trip, `%v`-keyed matchers — partial** (legacy SSE client table, Streamable POST-SSE matcher):
-    holds for the first 999 999 requests of a client. -/
+/-- **Key round trip of the `%v` kind (the tree before the D01 repair) — partial**: holds for the first 999 999 requests of
+    a client only. -/
 theorem C01_key_roundtrip_partial (n : Nat) (_h1 : 1 ≤ n) (h : n < 10 ^ 6) :
     keyOfWire .sprintfV (wireOf n) = keyOfReq .sprintfV (.int (Int.ofNat n)) := by
   rw [keyOfWire_sprintf (by omega), keyOfReq_sprintf, fmtVFloatNat_small (by omega)]
 
-/-- **Counterexample to the full round trip (D01)**: request number 1 000 000. The answer's id renders as `"1e+06"`,
+/-- **Counterexample to the full round trip for the `%v` kind (D01)**: request number 1 000 000. The answer's id renders as `"1e+06"`,
     the request was registered as `"1000000"`. -/
 theorem C01_key_counterexample :
     keyOfWire .sprintfV (wireOf 1000000) = some (.txt t!"1e+06") ∧
@@ -96,11 +136,12 @@ theorem C01_key_mismatch_from_1e6 (n : Nat) (h1 : 10 ^ 6 ≤ n) (h : n ≤ 2 ^ 5
   injection he with he
   exact fmtVFloatNat_large_ne (by omega) n he
 
-/-- **Key round trip for string ids** on the `%v`-keyed matchers: a string id made of Unicode scalar values comes back
-    as the same string (`json.Marshal` escaping, `json.Unmarshal` unescaping, `%v` of a string is the string). -/
-theorem C01_key_roundtrip_string (s : Text) (h : ∀ c ∈ s, Mcp.Props.C02.validScalar c) :
-    keyOfWire .sprintfV (echoId (encodeId (.str s))) = keyOfReq .sprintfV (.str s) := by
-  simp [keyOfWire, echoId, encodeId, decodeId, reencodeId, keyOfDec, keyOfReq, Mcp.Props.C02.C02_string_fidelity s h]
+/-- **Key round trip for string ids** (`requestIDKey`, and the `%v` kind alike): a string id made of Unicode scalar values
+    comes back as the same string (`json.Marshal` escaping, `json.Unmarshal` unescaping) and renders to the same key. -/
+theorem C01_key_roundtrip_string (k : KeyKind) (hk : k = .idKey ∨ k = .sprintfV) (s : Text) (h : ∀ c ∈ s, Mcp.Props.C02.validScalar c) :
+    keyOfWire k (echoId (encodeId (.str s))) = keyOfReq k (.str s) := by
+  rcases hk with hk | hk <;> subst hk <;>
+    simp [keyOfWire, echoId, encodeId, decodeId, reencodeId, keyOfDec, keyOfReq, Mcp.Props.C02.C02_string_fidelity s h]
 
 /-- A string id stays a string and an integer id stays an integer through an honest server's echo. -/
 theorem C01_echo_kind (s : Text) (h : ∀ c ∈ s, Mcp.Props.C02.validScalar c) (n : Nat) (hn : n ≤ 2 ^ 53) :
@@ -127,6 +168,23 @@ private theorem keySound_sprintf : KeySound .sprintfV (2 ^ 53) := by
     exact (Option.some.inj h1).trans (Option.some.inj h2).symm
   injection this with this
   exact fmtV_sound this
+
+private theorem keySound_idKey : KeySound .idKey (2 ^ 53) := by
+  intro a c key ha _ h1 h2
+  rw [keyOfWire_idKey ha] at h1
+  rw [keyOfReq_idKey] at h2
+  have : Key.txt (t!"n:" ++ natDigits a) = Key.txt (t!"n:" ++ natDigits c) := by
+    exact (Option.some.inj h1).trans (Option.some.inj h2).symm
+  injection this with this
+  exact natDigits_inj (List.append_cancel_left this)
+
+private theorem keyInj_idKey : KeyInj .idKey := by
+  intro a c key h1 h2
+  rw [keyOfReq_idKey] at h1 h2
+  have : Key.txt (t!"n:" ++ natDigits a) = Key.txt (t!"n:" ++ natDigits c) := by
+    exact (Option.some.inj h1).trans (Option.some.inj h2).symm
+  injection this with this
+  exact natDigits_inj (List.append_cancel_left this)
 
 private theorem keySound_int64 : KeySound .int64 (2 ^ 53) := by
   intro a c key ha _ h1 h2
@@ -554,13 +612,21 @@ private theorem inv_run (k : KeyKind) (B : Nat) (hs : KeySound k B) (evs : List 
       have hb1 : s1.next ≤ B := Nat.le_trans (run_next_mono k es s1 s' h) hb
       exact ih (fun x hx => hh x (by simp [hx])) s1 s' (inv_step k B hs s s1 e (hh e (by simp)) hi hb1 hs1) h hb
 
-/-- the key kind each client table uses today (regenerated facts, decided below). -/
-def goodKind (k : KeyKind) : Prop := k = .sprintfV ∨ k = .int64
+/-- the key kinds safety is proved for: the ones in use today (`idKey`, `int64`) and the `%v` kind of the tree before the
+    repair (it loses answers, but never hands one to the wrong call). -/
+def goodKind (k : KeyKind) : Prop := k = .idKey ∨ k = .sprintfV ∨ k = .int64
 
 private theorem keySound_of_good (k : KeyKind) (hk : goodKind k) : KeySound k (2 ^ 53) := by
-  rcases hk with hk | hk <;> subst hk
+  rcases hk with hk | hk | hk <;> subst hk
+  · exact keySound_idKey
   · exact keySound_sprintf
   · exact keySound_int64
+
+private theorem keyInj_of_good (k : KeyKind) (hk : goodKind k) : KeyInj k := by
+  rcases hk with hk | hk | hk <;> subst hk
+  · exact keyInj_idKey
+  · exact keyInj_sprintf
+  · exact keyInj_int64
 
 /-- **Ids are unique**: whatever the schedule, the calls in flight carry pairwise different ids and pairwise
     different table keys (the counter never repeats, decimal rendering is injective), so a map insert never
@@ -575,9 +641,7 @@ theorem C01_ids_unique (k : KeyKind) (hk : goodKind k) (start : Nat) (evs : List
   have k1 := (hi.pend e1 h1).2
   have k2 := (hi.pend e2 h2).2
   rw [hkey] at k1
-  rcases hk with hk | hk <;> subst hk
-  · exact keyInj_sprintf _ _ _ k1 k2
-  · exact keyInj_int64 _ _ _ k1 k2
+  exact keyInj_of_good k hk _ _ _ k1 k2
 
 /-- **Own answer**: for every schedule of an honest server (each request answered once, in any order, after any
     delay), any interleaving of deliveries, wake-ups, timeouts, cancellations and a close: every completed call
@@ -647,9 +711,7 @@ theorem C01_delivered_if_connected (k : KeyKind) (hk : goodKind k) (start : Nat)
     intro e2 h2 hk2
     have k2 := (hi.pend e2 h2).2
     rw [hk2] at k2
-    rcases hk with hk | hk <;> subst hk
-    · exact keyInj_sprintf _ _ _ k2 hkey
-    · exact keyInj_int64 _ _ _ k2 hkey
+    exact keyInj_of_good k hk _ _ _ k2 hkey
   have hfc := fill_hit e.key c c s.pending e he rfl hc hsl huniq hi.pendNodup
   refine ⟨{ s with wire := s.wire.eraseIdx i, pending := fill e.key c s.pending }, ?_⟩
   refine ⟨{ s with wire := s.wire.eraseIdx i, pending := removeCall c (fill e.key c s.pending), done := s.done ++ [(c, .answer c)] }, ?_, ?_, ?_⟩
@@ -658,7 +720,7 @@ theorem C01_delivered_if_connected (k : KeyKind) (hk : goodKind k) (start : Nat)
   · simp [step, hfc]
   · simp
 
-/-- **Schedule-level witness of D01** on a `%v`-keyed table: a client whose counter stands at 999 999 issues its next
+/-- **Schedule-level witness of D01** on a `%v`-keyed table (the tree before the repair): a client whose counter stands at 999 999 issues its next
     request; the server answers it; the reader delivers the answer — and drops it as "unknown request ID". The call is
     still waiting with an empty channel and nothing is in flight: it can only end by timeout or cancellation although
     the connection is up. -/
@@ -668,28 +730,33 @@ theorem C01_lost_answer_witness :
       s.pending = [⟨.txt t!"1000000", 1000000, none⟩] := by
   refine ⟨_, rfl, ?_⟩; decide
 
-/-- the same history on the stdio table completes the call. -/
-theorem C01_stdio_1e6_ok :
-    ∃ s, run .int64 (init 999999) [.issue, .serverAnswer 1000000, .deliver 0, .complete 1000000] = some s ∧
-      s.done = [(1000000, .answer 1000000)] ∧ s.pending = [] := by
-  refine ⟨_, rfl, ?_⟩; decide
+/-- the same history on today's tables (`requestIDKey`, and stdio's `int64`) completes the call. -/
+theorem C01_1e6_ok :
+    (∃ s, run .idKey (init 999999) [.issue, .serverAnswer 1000000, .deliver 0, .complete 1000000] = some s ∧
+      s.done = [(1000000, .answer 1000000)] ∧ s.pending = []) ∧
+    (∃ s, run .int64 (init 999999) [.issue, .serverAnswer 1000000, .deliver 0, .complete 1000000] = some s ∧
+      s.done = [(1000000, .answer 1000000)] ∧ s.pending = []) := by
+  refine ⟨⟨_, rfl, ?_⟩, ⟨_, rfl, ?_⟩⟩ <;> decide
 
 /-! ## Streamable HTTP (answer on the POST's own response) -/
 
 /-- **POST-SSE, own answer**: whatever events an honest server writes before the result on the response of call `c`'s
     POST (notifications only — the stream belongs to this request), the call returns its own answer, provided the key
-    round trip holds for `c`. -/
-theorem C01_post_sse_own (c : Nat) (n : Nat)
-    (hrt : keyOfWire .sprintfV (wireOf c) = keyOfReq .sprintfV (.int (Int.ofNat c))) :
-    scanPostSse c (List.replicate n .notification ++ [.frame ⟨wireOf c, c⟩]) = .answer c := by
+    round trip holds for `c` (it does for every `c ≤ 2^53` on today's matcher: `C01_key_roundtrip`). -/
+theorem C01_post_sse_own (k : KeyKind) (c : Nat) (n : Nat)
+    (hrt : keyOfWire k (wireOf c) = keyOfReq k (.int (Int.ofNat c))) :
+    scanPostSse k c (List.replicate n .notification ++ [.frame ⟨wireOf c, c⟩]) = .answer c := by
   induction n with
   | zero => simp [scanPostSse, hrt]
   | succ n ih => simpa [List.replicate_succ, scanPostSse] using ih
 
+private theorem keyOfReq_some (k : KeyKind) (hk : goodKind k) (c : Nat) : ∃ key, keyOfReq k (.int (Int.ofNat c)) = some key := by
+  rcases hk with hk | hk | hk <;> subst hk <;> simp [keyOfReq]
+
 /-- A frame is accepted by the POST-SSE matcher only if it carries the call's own id (ids up to 2^53). -/
-theorem C01_post_sse_sound (c : Nat) (hc : c ≤ 2 ^ 53) (evs : List PostEv)
+theorem C01_post_sse_sound (k : KeyKind) (hk : goodKind k) (c : Nat) (hc : c ≤ 2 ^ 53) (evs : List PostEv)
     (hall : ∀ ev ∈ evs, ev = .notification ∨ ∃ b, b ≤ 2 ^ 53 ∧ ev = .frame ⟨wireOf b, b⟩) :
-    scanPostSse c evs = .error ∨ scanPostSse c evs = .answer c := by
+    scanPostSse k c evs = .error ∨ scanPostSse k c evs = .answer c := by
   induction evs with
   | nil => simp [scanPostSse]
   | cons ev rest ih =>
@@ -700,16 +767,18 @@ theorem C01_post_sse_sound (c : Nat) (hc : c ≤ 2 ^ 53) (evs : List PostEv)
       simp only [scanPostSse]
       split
       · rename_i heq
-        have hk := keyOfWire_sprintf hb
-        have := keySound_sprintf b c (.txt (fmtVFloatNat b)) hb hc hk (by rw [← heq]; exact hk)
+        obtain ⟨key, hkey⟩ := keyOfReq_some k hk c
+        have := keySound_of_good k hk b c key hb hc (by rw [heq]; exact hkey) hkey
         subst this; exact Or.inr rfl
       · exact hrest
 
-/-- **D01 on the Streamable client in SSE mode**: the millionth request's own answer is not recognised; the stream ends
-    and the call fails with "connection closed but no final response received". -/
+/-- **D01 on the Streamable client in SSE mode (the `%v` matcher of the tree before the repair)**: the millionth request's
+    own answer is not recognised; the stream ends and the call fails with "connection closed but no final response
+    received". With `requestIDKey` the same stream yields the answer. -/
 theorem C01_post_sse_lost_witness :
-    scanPostSse 1000000 [.notification, .frame ⟨wireOf 1000000, 1000000⟩] = .error ∧
-    scanPostSse 999999 [.notification, .frame ⟨wireOf 999999, 999999⟩] = .answer 999999 := by decide
+    scanPostSse .sprintfV 1000000 [.notification, .frame ⟨wireOf 1000000, 1000000⟩] = .error ∧
+    scanPostSse .sprintfV 999999 [.notification, .frame ⟨wireOf 999999, 999999⟩] = .answer 999999 ∧
+    scanPostSse .idKey 1000000 [.notification, .frame ⟨wireOf 1000000, 1000000⟩] = .answer 1000000 := by decide
 
 /-- JSON answers are not matched by id at all: the body of the POST's response is the outcome (correlation is the
     HTTP exchange itself). -/
@@ -717,22 +786,23 @@ theorem C01_post_json_unchecked (f : Frame) : readPostJson f = .answer f.body :=
 
 /-! ## regenerated facts (T-gen) -/
 
-/-- The five pending tables are keyed as modelled: the two `%v` matchers of the clients (legacy SSE table and the
-    Streamable POST-SSE comparison), the stdio client's `int64` table, the Streamable server's `%v` table and the two
-    `uint64` server tables; every insert has its deferred delete. A changed key expression changes `kind`. -/
+/-- The five pending tables are keyed as modelled: `requestIDKey` on both sides of the legacy SSE client table and of the
+    Streamable server's table, the stdio client's `int64` table, the two `uint64` server tables; every insert has its
+    deferred delete. A changed key expression changes `kind`. -/
 theorem C01_fact_tables :
     Mcp.Gen.pdTables.map (fun t => (t.name, t.insertKind, t.lookupKinds, t.deferredDelete)) =
-      [ (t!"sse_client.responses", t!"sprintfV", [t!"sprintfV"], true),
+      [ (t!"sse_client.responses", t!"idKey", [t!"idKey"], true),
         (t!"sse_server.responses", t!"uint64OfInt64", [t!"parseRequestID", t!"parseRequestID"], true),
         (t!"stdio_client.pendingRequests", t!"int64Assert", [t!"int64OfFloat64", t!"int64OfFloat64"], true),
         (t!"stdio_server.responses", t!"uint64OfInt64", [t!"parseRequestID"], true),
-        (t!"streamable_server.pendingRequests", t!"sprintfV", [t!"sprintfV"], true) ] := by decide
+        (t!"streamable_server.pendingRequests", t!"idKey", [t!"idKey"], true) ] := by decide
 
-/-- The Streamable client's POST-SSE matcher compares `%v` renderings of both ids. -/
-theorem C01_fact_post_sse_matcher : Mcp.Gen.pdPostSseMatcher = (t!"sprintfV", t!"sprintfV") := by decide
+/-- The Streamable client's POST-SSE matcher compares `requestIDKey` renderings of both ids. -/
+theorem C01_fact_post_sse_matcher : Mcp.Gen.pdPostSseMatcher = (t!"idKey", t!"idKey") := by decide
 
 /-- The kinds the client tables use are the ones the theorems above are proved for. -/
-theorem C01_fact_good_kinds : goodKind .sprintfV ∧ goodKind .int64 := ⟨Or.inl rfl, Or.inr rfl⟩
+theorem C01_fact_good_kinds : kindToday .idKey ∧ kindToday .int64 ∧ goodKind .idKey ∧ goodKind .int64 :=
+  ⟨Or.inl rfl, Or.inr rfl, Or.inl rfl, Or.inr (Or.inr rfl)⟩
 
 /-- Channel sends that can drop a frame (`select` with a `default:` branch), complete list. The client-side ones are the
     modelled `fill` (full 1-slot channel: a duplicate frame is dropped); the legacy SSE server's `eventQueue` sends drop an
@@ -753,7 +823,7 @@ theorem C01_fact_drop_sites :
         (t!"stdio_server.go", t!"HandleResponse", t!"responseChan"),
         (t!"stdio_server.go", t!"HandleResponse", t!"responseChan"),
         (t!"stdio_server.go", t!"SendRequest", t!"session.MessageChannel()"),
-        (t!"streamable_server.go", t!"DeliverResponse", t!"responseChan"),
+        (t!"streamable_server.go", t!"DeliverResponse", t!"pending.responseChan"),
         (t!"transport_stdio.go", t!"handleErrorResponse", t!"respChan"),
         (t!"transport_stdio.go", t!"handleResponse", t!"respChan"),
         (t!"transport_stdio.go", t!"handleResponse", t!"respChan") ] := by decide
@@ -761,7 +831,7 @@ theorem C01_fact_drop_sites :
 /-! ## non-vacuity -/
 
 -- three calls answered in reverse order, one duplicate wake-up attempt refused, one timeout: every call has its own answer
-example : ∃ s, run .sprintfV (init 0) [.issue, .issue, .issue, .serverAnswer 3, .serverAnswer 1, .deliver 0, .deliver 0,
+example : ∃ s, run .idKey (init 0) [.issue, .issue, .issue, .serverAnswer 3, .serverAnswer 1, .deliver 0, .deliver 0,
       .complete 1, .timeout 2, .complete 3, .serverAnswer 2, .deliver 0] = some s ∧
     s.done = [(1, .answer 1), (2, .error), (3, .answer 3)] ∧ s.pending = [] ∧ s.wire = [] := by
   refine ⟨_, rfl, ?_⟩; decide
@@ -772,8 +842,8 @@ example : ∃ s, run .int64 (init 0) [.issue, .serverAnswer 1, .deliver 0, .inje
   refine ⟨_, rfl, ?_⟩; decide
 
 -- the hypotheses of `C01_delivered_if_connected` are satisfiable
-example : ∃ s, run .sprintfV (init 41) [.issue, .serverAnswer 42] = some s ∧ s.open_ = true ∧
-    s.wire[0]? = some ⟨wireOf 42, 42⟩ ∧ s.pending = [⟨.txt t!"42", 42, none⟩] := by
+example : ∃ s, run .idKey (init 41) [.issue, .serverAnswer 42] = some s ∧ s.open_ = true ∧
+    s.wire[0]? = some ⟨wireOf 42, 42⟩ ∧ s.pending = [⟨.txt t!"n:42", 42, none⟩] := by
   refine ⟨_, rfl, ?_⟩; decide
 
 end Mcp.Props.C01
